@@ -365,20 +365,92 @@ theorem RowRes.isRowRes {t : TCfg} {i : Info} {f : Flags} {s s' : Sub} {res : Re
     res.isRowRes = true := by
   cases res <;> first | rfl | exact h.elim
 
-/-- **`next_frame` after a fatal error** -/
-theorem nextFrameBuf_dead (cfg : Cfg) {t : TCfg} (ht : t.Ok) (r : R) (buf : Bytes) (hI : Inv t r) (h : Dead r) :
-    Still r (nextFrameBuf cfg t r buf).1 ∧ (nextFrameBuf cfg t r buf).2.1.isErr = true := by
-  unfold nextFrameBuf
+/-- **`next_frame` inside a frame without a stream** (poisoned, or the frame's data was consumed and flushed): only
+    what is buffered is used -/
+theorem frameInto_ns (cfg : Cfg) (t : TCfg) (r : R) (buf : Bytes) (h : NoStream r) :
+    Still r (frameInto cfg t r buf).1 := by
+  unfold frameInto
   split
-  · exact ⟨Still.refl _, rfl⟩
+  · exact Still.refl _
+  · rename_i i hi
+    simp only
+    split
+    · exact Still.refl _
+    · have h1 := frameBody_ns cfg t r i.interlaced (outLineSize t i r.flags r.sub.width)
+        (samplesOf (t.outColorDepth i r.flags).1 * (t.outColorDepth i r.flags).2) buf h
+      generalize frameBody cfg t r i.interlaced (outLineSize t i r.flags r.sub.width)
+        (samplesOf (t.outColorDepth i r.flags).1 * (t.outColorDepth i r.flags).2) buf = out at h1
+      obtain ⟨r2, buf', res⟩ := out
+      cases res with
+      | some e => exact h1
+      | none =>
+        simp only
+        have h2 := (finishDecoding_ns cfg r2 (h.still h1)).1
+        generalize finishDecoding cfg r2 = out2 at h2
+        obtain ⟨r3, res3⟩ := out2
+        simp only at h2
+        subst h2
+        cases res3 <;> exact h1
+
+/-- `next_frame` inside a frame answers an error or the frame -/
+theorem frameInto_kind (cfg : Cfg) {t : TCfg} (ht : t.Ok) (r : R) (buf : Bytes) (hI : Inv t r) :
+    (frameInto cfg t r buf).2.1.isErr = true ∨ ∃ oi b, (frameInto cfg t r buf).2.1 = .frame oi b := by
+  obtain ⟨i, hi, hg⟩ := hI.info
+  have hleg := hI.base.dinv.legal i hi
+  unfold frameInto
+  simp only [infoOf, hi]
+  by_cases hneed : buf.length < outLineSize t i r.flags i.width * i.height
+  · rw [if_pos hneed]; exact Or.inl rfl
+  · rw [if_neg hneed]
+    have hbuf : r.sub.height * outLineSize t i r.flags r.sub.width ≤ buf.length := by
+      have h1 := outLineSize_mono ht hleg r.flags hg.wW
+      have h2 : r.sub.height * outLineSize t i r.flags r.sub.width ≤ i.height * outLineSize t i r.flags i.width :=
+        Nat.mul_le_mul hg.hH h1
+      rw [Nat.mul_comm i.height] at h2
+      omega
+    have h0 := frameBody_err cfg ht r buf hI i hi hbuf
+    generalize frameBody cfg t r i.interlaced (outLineSize t i r.flags r.sub.width)
+      (samplesOf (t.outColorDepth i r.flags).1 * (t.outColorDepth i r.flags).2) buf = out at h0
+    obtain ⟨r2, buf', res⟩ := out
+    cases res with
+    | some e => exact Or.inl h0.1
+    | none =>
+      simp only
+      have h5 := finishDecoding_spec cfg r2 h0.1 h0.2
+      generalize finishDecoding cfg r2 = out2 at h5
+      obtain ⟨r3, res3⟩ := out2
+      cases res3 with
+      | error e => exact Or.inl h5.1
+      | ok u => exact Or.inr ⟨_, _, rfl⟩
+
+/-- **`next_frame` after a fatal error**: it fails with an error — unless rows of the current frame are still to be
+    delivered and the frame's data was already consumed and flushed: then (repair 429476f) it finishes that frame from
+    what is buffered and answers the frame or an error; the stream is not touched either way -/
+theorem nextFrameBuf_dead (cfg : Cfg) {t : TCfg} (ht : t.Ok) (r : R) (buf : Bytes) (hI : Inv t r) (h : Dead r) :
+    Still r (nextFrameBuf cfg t r buf).1 ∧
+    ((nextFrameBuf cfg t r buf).2.1.isErr = true ∨
+      (r.sub.cur.isSome = true ∧ r.sub.caf = true ∧ ∃ oi b, (nextFrameBuf cfg t r buf).2.1 = .frame oi b)) := by
+  by_cases hc : r.sub.cur.isSome = true
+  · rw [nextFrameBuf_some cfg t r buf hc]
+    cases hcaf : r.sub.caf with
+    | false => exact ⟨(frameInto_dead cfg ht r buf hI h hcaf).1, Or.inl (frameInto_dead cfg ht r buf hI h hcaf).2⟩
+    | true =>
+      refine ⟨frameInto_ns cfg t r buf (Or.inl h), ?_⟩
+      rcases frameInto_kind cfg ht r buf hI with h1 | h1
+      · exact Or.inl h1
+      · exact Or.inr ⟨hc, rfl, h1⟩
+  rw [nextFrameBuf_eq, if_neg hc]
+  unfold nextFrameBuf0
+  split
+  · exact ⟨Still.refl _, Or.inl rfl⟩
   · cases hcaf : r.sub.caf with
     | true =>
       simp only [if_true]
       obtain ⟨e, h1, h2⟩ := readUntilImageData_dead cfg t r h
-      rw [h1]; exact ⟨Still.refl _, h2⟩
+      rw [h1]; exact ⟨Still.refl _, Or.inl h2⟩
     | false =>
       simp only [Bool.false_eq_true, if_false]
-      exact frameInto_dead cfg ht r buf hI h hcaf
+      exact ⟨(frameInto_dead cfg ht r buf hI h hcaf).1, Or.inl (frameInto_dead cfg ht r buf hI h hcaf).2⟩
 
 /-- **`next_frame_info` after a fatal error** -/
 theorem nextFrameInfo_dead (cfg : Cfg) {t : TCfg} (r : R) (hI : Inv t r) (h : Dead r) :
@@ -441,6 +513,41 @@ def Op.isRowCall : Op → Bool
   | .nextRow | .readRow => true
   | _ => false
 
+/-- `next_frame` -/
+def Op.isFrameCall : Op → Bool
+  | .nextFrame _ => true
+  | _ => false
+
+/-- `Ok(OutputInfo)` of `next_frame` -/
+def Res.isFrame : Res → Bool
+  | .frame _ _ => true
+  | _ => false
+
+/-- the model's `next_frame` operation in terms of `next_frame` on the caller's buffer: the same answer, and the
+    reader differs only in the model's bookkeeping of that buffer -/
+theorem nextFrameOp_out (cfg : Cfg) (t : TCfg) (r : R) (p : UInt8) (i : Info) (hi : r.dec.info = some i) :
+    (nextFrameOp cfg t r p).2 =
+      (nextFrameBuf cfg t { r with pendingBuf := none } (callerBuf r (outLineSize t i r.flags i.width * i.height) p)).2.1 ∧
+    Still (nextFrameBuf cfg t { r with pendingBuf := none } (callerBuf r (outLineSize t i r.flags i.width * i.height) p)).1
+      (nextFrameOp cfg t r p).1 := by
+  unfold nextFrameOp
+  simp only [infoOf, hi]
+  generalize nextFrameBuf cfg t { r with pendingBuf := none }
+    (callerBuf r (outLineSize t i r.flags i.width * i.height) p) = out
+  obtain ⟨r1, res, b⟩ := out
+  simp only
+  split <;> exact ⟨rfl, ⟨rfl, rfl, rfl, rfl, rfl, rfl, rfl⟩⟩
+
+/-- `next_frame` with no frame left and no row pending -/
+theorem nextFrameOp_polled (cfg : Cfg) (t : TCfg) (r : R) (p : UInt8) (i : Info) (hi : r.dec.info = some i)
+    (hrem : r.remaining = 0) (hcur : r.sub.cur = none) :
+    nextFrameOp cfg t r p = ({ r with pendingBuf := none }, .err .parameter "PolledAfterEndOfImage") := by
+  unfold nextFrameOp
+  simp only [infoOf, hi]
+  rw [nextFrameBuf_none cfg t { r with pendingBuf := none } _ hcur]
+  unfold nextFrameBuf0
+  simp only [hrem, if_true]
+
 theorem step_reader (cfg : Cfg) (t : TCfg) (r : R) (hr : r.isReader = true) :
     (∀ p, step cfg t r (.nextFrame p) = nextFrameOp cfg t r p) ∧
     step cfg t r .nextRow = nextInterlacedRow cfg t { r with pendingBuf := none } ∧
@@ -458,7 +565,8 @@ theorem step_reader (cfg : Cfg) (t : TCfg) (r : R) (hr : r.isReader = true) :
 theorem poisoned_absorbing (cfg : Cfg) {t : TCfg} (ht : t.Ok) (r : R) (op : Op) (hI : Inv t r)
     (hr : r.isReader = true) (hd : r.dec.state = none) (hop : op.isCall = true) :
     (step cfg t r op).1.dec = r.dec ∧ (step cfg t r op).1.pos = r.pos ∧ (step cfg t r op).1.visible = r.visible ∧
-    ((step cfg t r op).2.isErr = true ∨ (op.isRowCall = true ∧ (step cfg t r op).2.isRowRes = true)) := by
+    ((step cfg t r op).2.isErr = true ∨ (op.isRowCall = true ∧ (step cfg t r op).2.isRowRes = true) ∨
+      (op.isFrameCall = true ∧ r.sub.cur.isSome = true ∧ r.sub.caf = true ∧ (step cfg t r op).2.isFrame = true)) := by
   obtain ⟨s1, s2, s3, s4, s5⟩ := step_reader cfg t r hr
   have hdead : Dead { r with pendingBuf := none } := ⟨hd, hI.base.out⟩
   have hI0 := hI.setPending none
@@ -469,25 +577,22 @@ theorem poisoned_absorbing (cfg : Cfg) {t : TCfg} (ht : t.Ok) (r : R) (op : Op) 
   | readHeader => cases hop
   | nextFrame p =>
     rw [s1 p]
-    unfold nextFrameOp
-    simp only [infoOf, hi]
-    have := nextFrameBuf_dead cfg ht { r with pendingBuf := none }
+    obtain ⟨o1, o2⟩ := nextFrameOp_out cfg t r p i hi
+    obtain ⟨h1, h2⟩ := nextFrameBuf_dead cfg ht { r with pendingBuf := none }
       (callerBuf r (outLineSize t i r.flags i.width * i.height) p) hI0 hdead
-    generalize nextFrameBuf cfg t { r with pendingBuf := none }
-      (callerBuf r (outLineSize t i r.flags i.width * i.height) p) = out at this
-    obtain ⟨r1, res, b⟩ := out
-    obtain ⟨h1, h2⟩ := this
-    simp only
-    split
-    · exact ⟨h1.dec, h1.pos, h1.visible, Or.inl rfl⟩
-    · exact ⟨h1.dec, h1.pos, h1.visible, Or.inl h2⟩
+    have hS := h1.trans o2
+    refine ⟨hS.dec, hS.pos, hS.visible, ?_⟩
+    rw [o1]
+    rcases h2 with h2 | ⟨c1, c2, oi, b, c3⟩
+    · exact Or.inl h2
+    · exact Or.inr (Or.inr ⟨rfl, c1, c2, by rw [c3]; rfl⟩)
   | nextRow =>
     rw [s2]
     have h1 := nextInterlacedRow_ns cfg t { r with pendingBuf := none } (Or.inl hdead)
     have h2 := nextInterlacedRow_spec cfg ht { r with pendingBuf := none } i hI0 hi
     generalize nextInterlacedRow cfg t { r with pendingBuf := none } = out at h1 h2
     obtain ⟨r1, res⟩ := out
-    exact ⟨h1.dec, h1.pos, h1.visible, Or.inr ⟨rfl, h2.2.2.2.isRowRes⟩⟩
+    exact ⟨h1.dec, h1.pos, h1.visible, Or.inr (Or.inl ⟨rfl, h2.2.2.2.isRowRes⟩)⟩
   | readRow =>
     rw [s3]
     simp only [infoOf, hi]
@@ -496,7 +601,7 @@ theorem poisoned_absorbing (cfg : Cfg) {t : TCfg} (ht : t.Ok) (r : R) (op : Op) 
       (outLineSize_mono ht (hI.base.dinv.legal i hi) r.flags hg.wW)
     generalize readRow cfg t { r with pendingBuf := none } (outLineSize t i r.flags i.width) = out at h1 h2
     obtain ⟨r1, res⟩ := out
-    exact ⟨h1.dec, h1.pos, h1.visible, Or.inr ⟨rfl, h2.2.2.2.isRowRes⟩⟩
+    exact ⟨h1.dec, h1.pos, h1.visible, Or.inr (Or.inl ⟨rfl, h2.2.2.2.isRowRes⟩)⟩
   | nextFrameInfo =>
     rw [s4]
     have := nextFrameInfo_dead cfg { r with pendingBuf := none } hI0 hdead
@@ -539,7 +644,11 @@ theorem finish_terminal (cfg : Cfg) {t : TCfg} (r : R) (hI : Inv t r) :
     either fails or reaches `ImageEnd` -/
 theorem ended_absorbing (cfg : Cfg) {t : TCfg} (ht : t.Ok) (r : R) (hI : Inv t r) (hr : r.isReader = true)
     (hrem : r.remaining = 0) (hcaf : r.sub.caf = true) :
-    (∀ p, step cfg t r (.nextFrame p) = ({ r with pendingBuf := none }, .err .parameter "PolledAfterEndOfImage")) ∧
+    (∀ p, (r.sub.cur = none →
+        step cfg t r (.nextFrame p) = ({ r with pendingBuf := none }, .err .parameter "PolledAfterEndOfImage")) ∧
+      Still r (step cfg t r (.nextFrame p)).1 ∧
+      ((step cfg t r (.nextFrame p)).2.isErr = true ∨
+        (r.sub.cur.isSome = true ∧ (step cfg t r (.nextFrame p)).2.isFrame = true))) ∧
     step cfg t r .nextFrameInfo = ({ r with pendingBuf := none }, .err .parameter "PolledAfterEndOfImage") ∧
     (Still r (step cfg t r .nextRow).1 ∧ (step cfg t r .nextRow).2.isRowRes = true) ∧
     (Still r (step cfg t r .readRow).1 ∧ (step cfg t r .readRow).2.isRowRes = true) ∧
@@ -553,10 +662,24 @@ theorem ended_absorbing (cfg : Cfg) {t : TCfg} (ht : t.Ok) (r : R) (hI : Inv t r
   have hs0 : Still r { r with pendingBuf := none } := ⟨rfl, rfl, rfl, rfl, rfl, rfl, rfl⟩
   refine ⟨fun p => ?_, ?_, ?_, ?_, ?_⟩
   · rw [s1 p]
-    unfold nextFrameOp
-    simp only [infoOf, hi]
-    unfold nextFrameBuf
-    simp only [hrem, if_true]
+    refine ⟨fun hcur => nextFrameOp_polled cfg t r p i hi hrem hcur, ?_⟩
+    cases hcur : r.sub.cur with
+    | none =>
+      rw [nextFrameOp_polled cfg t r p i hi hrem hcur]
+      exact ⟨hs0, Or.inl rfl⟩
+    | some ii =>
+      have hc : ({ r with pendingBuf := none } : R).sub.cur.isSome = true := by
+        show r.sub.cur.isSome = true; rw [hcur]; rfl
+      obtain ⟨o1, o2⟩ := nextFrameOp_out cfg t r p i hi
+      rw [nextFrameBuf_some cfg t _ _ hc] at o1 o2
+      have hS := (frameInto_ns cfg t { r with pendingBuf := none }
+        (callerBuf r (outLineSize t i r.flags i.width * i.height) p) (Or.inr hcaf)).trans o2
+      refine ⟨hs0.trans hS, ?_⟩
+      rw [o1]
+      rcases frameInto_kind cfg ht { r with pendingBuf := none }
+        (callerBuf r (outLineSize t i r.flags i.width * i.height) p) hI0 with h | ⟨oi, b, h⟩
+      · exact Or.inl h
+      · exact Or.inr ⟨rfl, by rw [h]; rfl⟩
   · rw [s4]
     unfold nextFrameInfo
     simp only [hcaf, if_true, hrem]
@@ -591,10 +714,7 @@ theorem finished_absorbing (cfg : Cfg) {t : TCfg} (r : R) (hI : Inv t r) (hr : r
   obtain ⟨i, hi, hg⟩ := hI.info
   refine ⟨fun p => ?_, ?_, ?_, ?_, ?_⟩
   · rw [s1 p]
-    unfold nextFrameOp
-    simp only [infoOf, hi]
-    unfold nextFrameBuf
-    simp only [hrem, if_true]
+    exact nextFrameOp_polled cfg t r p i hi hrem hcur
   · rw [s4]
     unfold nextFrameInfo
     simp only [hcaf, if_true, hrem]
@@ -659,10 +779,7 @@ theorem refused_absorbing (cfg : Cfg) {t : TCfg} (r : R) (hI : Inv t r) (hr : r.
   obtain ⟨i, hi, hg⟩ := hI.info
   refine ⟨fun p => ?_, ?_, ?_, ?_, ?_⟩
   · rw [s1 p]
-    unfold nextFrameOp
-    simp only [infoOf, hi]
-    unfold nextFrameBuf
-    simp only [hrem, if_true]
+    exact nextFrameOp_polled cfg t r p i hi hrem hcur
   · rw [s4]
     unfold nextFrameInfo
     simp only [hcaf, if_true, hrem]
@@ -754,41 +871,52 @@ theorem ended_run (cfg : Cfg) {t : TCfg} : ∀ (ops : List Op) (r : R), Inv t r 
 /-- a state in which no further frame can be delivered -/
 def Terminal (r : R) : Prop := r.dec.state = none ∨ r.finished = true ∨ (r.remaining = 0 ∧ r.sub.caf = true)
 
-/-- results that can follow a terminal state: an error, `None`, an already buffered row, or — from
-    `finish` on a reader that is not yet finished and whose stream is still usable — `Ok(())` -/
-def Res.afterEnd (op : Op) : Res → Bool
+/-- results that can follow a terminal state: an error, `None`, an already buffered row, — from `next_frame` when
+    rows of the current frame were still pending and its data already flushed (`pending`; repair 429476f) — that
+    frame, finished from what is buffered, or — from `finish` on a reader that is not yet finished and whose stream is
+    still usable — `Ok(())` -/
+def Res.afterEnd (op : Op) (pending : Bool) : Res → Bool
   | .err _ _ => true
   | .noRow | .row _ _ => op.isRowCall
+  | .frame _ _ => op.isFrameCall && pending
   | .done => op == .finish
   | _ => false
 
 /-- **C18, terminal states are absorbing**: from a terminal state every call of the `Reader` leads to
-    a terminal state and returns an error, `None`, an already buffered row, or (`finish` only) `Ok` —
-    never a frame, a frame control or a header; unless the call is a `finish` on an unfinished reader
+    a terminal state and returns an error, `None`, an already buffered row, (`next_frame` with pending rows of a
+    flushed frame only) the frame completed from buffered rows, or (`finish` only) `Ok` —
+    never a frame control or a header; unless the call is a `finish` on an unfinished reader
     with a usable stream, neither the stream decoder nor the read position moves -/
 theorem terminal_absorbing (cfg : Cfg) {t : TCfg} (ht : t.Ok) (r : R) (op : Op) (hI : Inv t r) (hr : r.isReader = true)
     (hT : Terminal r) (hop : op.isCall = true) :
-    Terminal (step cfg t r op).1 ∧ (step cfg t r op).2.afterEnd op = true ∧
+    Terminal (step cfg t r op).1 ∧ (step cfg t r op).2.afterEnd op (r.sub.cur.isSome && r.sub.caf) = true ∧
     ((step cfg t r op).2 = .done → op = .finish ∧ r.finished = false ∧ r.dec.state ≠ none) ∧
     (op ≠ .finish ∨ r.dec.state = none ∨ r.finished = true →
       (step cfg t r op).1.dec = r.dec ∧ (step cfg t r op).1.pos = r.pos) := by
-  have rowAfter : ∀ {o : Op} {res : Res}, o.isRowCall = true → res.isRowRes = true → res.afterEnd o = true := by
-    intro o res h1 h2
+  have rowAfter : ∀ {o : Op} {res : Res} {b : Bool}, o.isRowCall = true → res.isRowRes = true → res.afterEnd o b = true := by
+    intro o res b h1 h2
     cases res <;> first | rfl | exact h1 | cases h2
-  have errAfter : ∀ {o : Op} {res : Res}, res.isErr = true → res.afterEnd o = true := by
-    intro o res h; cases res <;> first | rfl | cases h
+  have errAfter : ∀ {o : Op} {res : Res} {b : Bool}, res.isErr = true → res.afterEnd o b = true := by
+    intro o res b h; cases res <;> first | rfl | cases h
+  have frameAfter : ∀ {o : Op} {res : Res}, o.isFrameCall = true → res.isFrame = true → res.afterEnd o true = true := by
+    intro o res h1 h2
+    cases res with
+    | frame oi b => show (o.isFrameCall && true) = true; rw [h1]; rfl
+    | _ => cases h2
   have notDone : ∀ {res : Res}, res.isErr = true → res = .done → False := by
     intro res h h2; subst h2; cases h
   by_cases hd : r.dec.state = none
   · obtain ⟨h1, h2, _, h4⟩ := poisoned_absorbing cfg ht r op hI hr hd hop
     refine ⟨Or.inl (h1 ▸ hd), ?_, ?_, fun _ => ⟨h1, h2⟩⟩
-    · rcases h4 with h4 | ⟨h4, h5⟩
+    · rcases h4 with h4 | ⟨h4, h5⟩ | ⟨h4, h5, h6, h7⟩
       · exact errAfter h4
       · exact rowAfter h4 h5
+      · rw [h5, h6]; exact frameAfter h4 h7
     · intro hdone
-      rcases h4 with h4 | ⟨h4, h5⟩
+      rcases h4 with h4 | ⟨h4, h5⟩ | ⟨h4, h5, h6, h7⟩
       · exact (notDone h4 hdone).elim
       · rw [hdone] at h5; cases h5
+      · rw [hdone] at h7; cases h7
   · have hrc : r.remaining = 0 ∧ r.sub.caf = true := by
       rcases hT with h | h | h
       · exact absurd h hd
@@ -800,8 +928,15 @@ theorem terminal_absorbing (cfg : Cfg) {t : TCfg} (ht : t.Ok) (r : R) (op : Op) 
     | readInfo => cases hop
     | readHeader => cases hop
     | nextFrame p =>
-      rw [e1 p]
-      exact ⟨Or.inr (Or.inr hrc), rfl, fun h => (by cases h), fun _ => ⟨rfl, rfl⟩⟩
+      obtain ⟨_, f2, f3⟩ := e1 p
+      refine ⟨Or.inr (Or.inr ⟨f2.remaining.trans hrc.1, f2.caf.trans hrc.2⟩), ?_, ?_, fun _ => ⟨f2.dec, f2.pos⟩⟩
+      · rcases f3 with f3 | ⟨f3, f4⟩
+        · exact errAfter f3
+        · rw [f3, hrc.2]; exact frameAfter rfl f4
+      · intro h
+        rcases f3 with f3 | ⟨_, f4⟩
+        · exact (notDone f3 h).elim
+        · rw [h] at f4; cases f4
     | nextFrameInfo =>
       rw [e2]
       exact ⟨Or.inr (Or.inr hrc), rfl, fun h => (by cases h), fun _ => ⟨rfl, rfl⟩⟩
